@@ -37,6 +37,8 @@
      toeplitz_psd           c^H T c >= 0 for every c and every order m < N
      toeplitz_hermitian     T[j][i] = conj T[i][j]
      toeplitz_pd            c^H T c > 0 when x <> 0 and c <> 0 (more than the statement asks)
+     acorr_coeff_bound      x <> 0, coeff: r[0] = 1, r[k] = lagsum / sum|x|^2, |r[k]|^2 <= 1
+     xcorr_neg_lags_ord     the same as xcorr_neg_lags in the ordered field: only rms(x)*rms(y) > 0 is needed
      corrmtx_gram           (X^H X)[i][j] = N * T[i][j] for all i, j <= m, 'autocorrelation' data matrix
      gram_hermitian
      corrmtx_shape          rows, columns and entry formula of all five methods
@@ -181,6 +183,18 @@ Theorem toeplitz_pd (x : list F) m r (c : nat -> F) :
   (exists j, (j <= m)%nat /\ c j <> 0) ->
   pos (toep_form r m c).
 Proof. exact (toeplitz_pd_thm x m r c). Qed.
+
+Theorem acorr_coeff_bound (x : list F) oml r k :
+  acorr_c x oml Coeff = inr r -> (exists t, (t < length x)%nat /\ nthF x t <> 0) ->
+  (k <= the_ml (length x) oml)%nat ->
+  nthF r O = 1 /\ ((1 <= k)%nat -> nthF r k = lagsum (length x) x x k / energy x) /\ le (nrm2 (nthF r k)) 1.
+Proof. exact (acorr_coeff_bound_thm x oml r k). Qed.
+
+Theorem xcorr_neg_lags_ord rp (x y : list F) oml nm rxy lxy ryx lyx k :
+  xcorr_c rp x (Some y) oml nm = inr (rxy, lxy) -> xcorr_c rp y (Some x) oml nm = inr (ryx, lyx) ->
+  (k <= the_ml (length x) oml)%nat -> pos rp ->
+  nthF rxy (the_ml (length x) oml - k) = conj (nthF ryx (the_ml (length x) oml + k)).
+Proof. exact (xcorr_neg_ord_thm rp x y oml nm rxy lxy ryx lyx k). Qed.
 End C09.
 
 (* ---------- non-vacuity on concrete Gaussian-rational inputs (vm_compute) ---------- *)
@@ -258,3 +272,5 @@ Print Assumptions toeplitz_form_value.
 Print Assumptions toeplitz_psd.
 Print Assumptions toeplitz_hermitian.
 Print Assumptions toeplitz_pd.
+Print Assumptions acorr_coeff_bound.
+Print Assumptions xcorr_neg_lags_ord.
